@@ -248,3 +248,59 @@ def ok_truthiness_const_true(src):
 
 def alarm_truthiness_const_false(src):
     _truthy(False, src)
+
+
+# ---- constants of the calling context only hold until the parameter is rebound --------------------------------------
+def _flag_rebound(x, flag=False):
+    flag = x.flag
+    if flag:
+        x.width = 1
+
+
+def alarm_const_param_rebound(src):
+    _flag_rebound(src)
+
+
+def _flag_rebound_in_loop(xs, x, flag=False):
+    for y in xs:
+        if flag:
+            x.width = 1
+        flag = y
+
+
+def alarm_const_param_rebound_in_loop(src):
+    _flag_rebound_in_loop([1, 2], src)
+
+
+def _flag_closure(x, flag=False):
+    def inner():
+        if flag:
+            x.width = 1
+
+    flag = True
+    inner()
+
+
+def alarm_const_param_closure_late(src):
+    _flag_closure(src)
+
+
+def _flag_walrus(x, flag=False):
+    y = 1 if (flag := x.flag) else 0
+    if flag:
+        x.width = 1
+
+
+def alarm_const_param_walrus(src):
+    _flag_walrus(src)
+
+
+def _none_param_rebound(x, y=None):
+    y = x.other
+    if y is None:
+        return
+    x.width = 1
+
+
+def alarm_none_param_rebound(src):
+    _none_param_rebound(src)
